@@ -795,25 +795,67 @@ def gen_unfold_macros():
 def gen_misid(nsrc, nfns, npath):
     fn = nfns.get('apply_anc_state_misid')
     if fn is None: raise TranslateError('apply_anc_state_misid not found')
-    e = T.single_return(fn)
     an = [a.arg for a in fn.args.args]
-    if len(an) != 2: raise TranslateError('apply_anc_state_misid: arguments')
+    if len(an) != 2 or fn.args.defaults or fn.args.vararg or fn.args.kwarg: raise TranslateError('apply_anc_state_misid: arguments')
     fs, p = an
-    if not (isinstance(e, ast.BinOp) and isinstance(e.op, ast.Add)
-            and isinstance(e.left, ast.BinOp) and isinstance(e.left.op, ast.Mult)
-            and isinstance(e.right, ast.BinOp) and isinstance(e.right.op, ast.Mult)):
-        raise TranslateError('apply_anc_state_misid: not A*fs + B*reverse_array(fs)')
-    A, X = e.left.left, e.left.right
-    B, Y = e.right.left, e.right.right
-    if not (isinstance(X, ast.Name) and X.id == fs): raise TranslateError('apply_anc_state_misid: first term is not A*%s' % fs)
-    if ast.unparse(Y).replace(' ', '') != 'reverse_array(%s)' % fs: raise TranslateError('apply_anc_state_misid: second term is not B*reverse_array(%s)' % fs)
+    body = _strip_doc(fn.body)
+    if not body or not isinstance(body[-1], ast.Return) or body[-1].value is None:
+        raise TranslateError('apply_anc_state_misid: does not end with `return <expression>`')
+    def norm(s): return re.sub(r'\s+', '', ast.unparse(s))
     ctx = T.Ctx(names={p: 'p'}, src=nsrc)
-    out = ['/-- %s: `return %s`  — shape `A*fs + B*reverse_array(fs)`: scalar*Spectrum is `__rmul__`, the sum is `__add__` -/'
-           % (T.srcline(fn, npath), _one_line(ast.get_source_segment(nsrc, e)))]
-    out.append('def misidCoefSelf (p : Rat) : Rat := %s' % T.tr(A, ctx))
-    out.append('def misidCoefMirror (p : Rat) : Rat := %s' % T.tr(B, ctx))
-    out.append('def misidLeftMethod : String := "__rmul__"')
-    out.append('def misidSumMethod : String := "__add__"')
+    env = {}          # local name -> ('A', MExpr term) | ('S', scalar Lean term in p)
+    def scalar(node):
+        """Lean term (in `p`) if `node` only involves the probability and literals, else None"""
+        for a in ast.walk(node):
+            if isinstance(a, ast.Name) and a.id != p and not (a.id in env and env[a.id][0] == 'S'): return None
+            if isinstance(a, (ast.Call, ast.Attribute, ast.Subscript)): return None
+        names = dict(ctx.names); names.update({k: v[1] for k, v in env.items() if v[0] == 'S'})
+        return T.tr(node, T.Ctx(names=names, src=nsrc))
+    def mexpr(node):
+        sc = scalar(node)
+        if sc is not None: return '(.scal fun p => %s)' % sc
+        if isinstance(node, ast.Name):
+            if node.id == fs: return '.fs'
+            if node.id in env and env[node.id][0] == 'A': return env[node.id][1]
+            raise TranslateError('apply_anc_state_misid: name %s' % node.id)
+        if isinstance(node, ast.Call) and not node.keywords and len(node.args) == 1:
+            cn = T.callee_name(node.func)
+            if cn in ('reverse_array', 'Numerics.reverse_array'): return '(.rev %s)' % mexpr(node.args[0])
+            if cn in ('numpy.ma.getdata', 'ma.getdata', 'numpy.ma.core.getdata'): return '(.getdata %s)' % mexpr(node.args[0])
+            raise TranslateError('apply_anc_state_misid: call %s' % cn)
+        if isinstance(node, ast.Attribute) and node.attr == 'data':
+            return '(.getdata %s)' % mexpr(node.value)
+        if isinstance(node, ast.BinOp):
+            for k, v in {ast.Add: 'add', ast.Sub: 'sub', ast.Mult: 'mul'}.items():
+                if isinstance(node.op, k):
+                    return '(.%s %s %s)' % (v, mexpr(node.left), mexpr(node.right))
+            raise TranslateError('apply_anc_state_misid: operator %s' % type(node.op).__name__)
+        raise TranslateError('apply_anc_state_misid: expression %s' % _one_line(ast.unparse(node)))
+    for st in body[:-1]:
+        if not (isinstance(st, ast.Assign) and len(st.targets) == 1 and isinstance(st.targets[0], ast.Name)):
+            raise TranslateError('apply_anc_state_misid: statement %s' % _one_line(ast.unparse(st)))
+        nm = st.targets[0].id
+        if nm in (fs, p): raise TranslateError('apply_anc_state_misid: argument %s is rebound' % nm)
+        sc = scalar(st.value)
+        env[nm] = ('S', '(%s)' % sc) if sc is not None else ('A', mexpr(st.value))
+    e = body[-1].value
+    out = ['/-- %s: `%s` — the returned expression of `apply_anc_state_misid(%s, %s)`, local names substituted -/'
+           % (T.srcline(fn, npath), '; '.join(_one_line(ast.get_source_segment(nsrc, st)) for st in body), fs, p)]
+    out.append('def misidExpr : DadiVerif.Fold.MExpr := %s' % mexpr(e))
+    # the documented shape  A*fs + B*reverse_array(fs)  (kept under its old names when the source has it)
+    if (isinstance(e, ast.BinOp) and isinstance(e.op, ast.Add)
+            and isinstance(e.left, ast.BinOp) and isinstance(e.left.op, ast.Mult)
+            and isinstance(e.right, ast.BinOp) and isinstance(e.right.op, ast.Mult)
+            and isinstance(e.left.right, ast.Name) and e.left.right.id == fs
+            and norm(e.right.right) == 'reverse_array(%s)' % fs
+            and scalar(e.left.left) is not None and scalar(e.right.left) is not None):
+        out.append('/-- shape `A*fs + B*reverse_array(fs)`: scalar*Spectrum is `__rmul__`, the sum is `__add__` -/')
+        out.append('def misidCoefSelf (p : Rat) : Rat := %s' % scalar(e.left.left))
+        out.append('def misidCoefMirror (p : Rat) : Rat := %s' % scalar(e.right.left))
+        out.append('def misidLeftMethod : String := "__rmul__"')
+        out.append('def misidSumMethod : String := "__add__"')
+    else:
+        out.append('/- the returned expression is not of the shape `A*fs + B*reverse_array(fs)`: `misidCoefSelf` / `misidCoefMirror` are not defined -/')
     # make_anc_state_misid_func: p_misid = all_params[-1]; args[0] = all_params[:-1]; return apply_anc_state_misid(fs, p_misid)
     mk = nfns.get('make_anc_state_misid_func')
     if mk is None: raise TranslateError('make_anc_state_misid_func not found')
